@@ -153,5 +153,45 @@ pub fn run(ctx: &Ctx) {
             out.case(&tagged, &imp_sx, false);
         }
     }
+    // sequences on one validating formatter: a rejected entry (often a split one with per-metric dimensions) followed by
+    // valid entries that reuse its names and dimension sets — rejection must leave no trace, valid output must stay
+    // byte-identical to the non-validating formatter and free of duplicate members
+    let nseq = if ctx.tier_thorough { 4000 } else { 400 };
+    for _ in 0..nseq {
+        let mut cfg = gen_config(&mut rng);
+        cfg.ctor = *rng.pick(&[Ctor::AllValidations, Ctor::Builder, Ctor::BuilderSkip(false)]);
+        let mut base = gen_items(&mut rng, &cfg, &GenOpts { defects: 0, allow_scripts: false, allow_split: true });
+        if !has_timestamp(&base) { base.insert(0, Item::Timestamp(9_000_000)); }
+        if rng.chance(2, 3) && !base.iter().any(|i| matches!(i, Item::Config(CItem::Split))) && !cfg.allow_ignored {
+            base.insert(1, Item::Config(CItem::Split));
+            base.push(Item::Value(format!("Lat{}", rng.below(3)), VCall::Metric(vec![Obs::U(rng.below(9))], UnitS::None, vec![("dk".into(), "dv".into())], Flag::None)));
+        }
+        let mut calls = vec![];
+        let ncalls = rng.range(2, 4);
+        for _ in 0..ncalls {
+            let mut it = base.clone();
+            if rng.chance(1, 2) { let d = *rng.pick(DEFECTS); let pos = rng.below(it.len() as u64 + 1) as usize; inject(&mut it, &cfg, d, pos, &mut rng); }
+            calls.push(Call { rate_exp: None, items: it, script: vec![] });
+        }
+        calls.push(Call { rate_exp: None, items: base.clone(), script: vec![] });
+        let case = Case { cfg: cfg.clone(), calls: calls.clone(), sorted: true };
+        let (case_sx, imp_sx, raw) = exec_case(&case, &mut out);
+        // every call of the sequence must equal the same call on fresh formatters, validating and (when accepted) not
+        for (call, (res, bytes)) in calls.iter().zip(&raw) {
+            let mut f = build(&cfg);
+            let (r1, b1) = exec_call(&mut f, call);
+            if enc_res(res, bytes, true) != enc_res(&r1, &b1, true) { out.fail("a call on a reused validating formatter differs from the same entry on a fresh one (a rejected entry left a trace)".into(), &case_sx); }
+            if matches!(res, Res::Ok) && no_value_errors(&call.items) {
+                let mut f2 = build(&Config { ctor: Ctor::NoValidations, ..cfg.clone() });
+                let (r2, b2) = exec_call(&mut f2, call);
+                if enc_res(res, bytes, true) != enc_res(&r2, &b2, true) { out.fail("accepted output differs from the output with validations disabled".into(), &case_sx); }
+            }
+            if matches!(res, Res::Validation(_)) && !bytes.is_empty() { out.fail("rejected entry produced output".into(), &case_sx); }
+        }
+        let tag = if calls.iter().any(|c| dim_key_collision(&c.items)) { "dim-key-collision" } else { "no-dim-key-collision" };
+        let tagged = Sx::L(vec![case_sx.list()[0].clone(), case_sx.list()[1].clone(), case_sx.list()[2].clone(), sx::b(tag)]);
+        out.count("rejected_then_valid_sequence");
+        out.case(&tagged, &imp_sx, true);
+    }
     out.finish("valid entries from the EMF generator under every dimension-set configuration and mode, each with single injections of the 12 defect kinds at several (thorough: every) positions and combined injections; formatted with validations enabled through each documented constructor of this build profile and disabled; non-trivial = a defect-injected entry; distinct by hash");
 }
